@@ -818,6 +818,71 @@ func valCase(i, e uint32, t int64, emit bool) {
 	if emit {
 		Emit("validity", []string{fmt.Sprint(i), fmt.Sprint(e), fmt.Sprint(t)}, Btoa(got))
 	}
+	// the instants of the second that begins at t (round 9b): t + 1 ns .. t + 999999999 ns
+	for k, ns := range subSecond {
+		valCaseNs(i, e, t, ns, emit && k%3 == 0)
+	}
+}
+
+// Sub-second parts: the fields count whole seconds (RFC 4034 3.1.5), a time.Time counts nanoseconds. An instant
+// sec + ns/1e9 with 0 < ns < 1e9 lies in the second numbered sec (seconds elapsed since the epoch), and
+//   - before the inception when sec < inception (sec + 1 <= inception, the instant is below it as a real number):
+//     not valid, however close to the inception it is (0.4 s, 1 ns before);
+//   - inside when inception <= sec and sec < expiration: valid;
+//   - after when sec > expiration: not valid;
+//   - sec == expiration: the instant lies in the expiration second but after its start. "t <= expiration" read on
+//     the real line says no, read on the seconds the fields count it says yes; the property does not decide, the
+//     harness only counts what the library answers (st validity_subsecond_in_expiration_second_*).
+// All of it for times within 68 years of both fields on either end of the second (sec and sec + 1).
+var subSecond = []int64{1, 400000000, 499999999, 500000000, 500000001, 600000000, 999999999}
+var otherZone = time.FixedZone("UTC+05:30:07", 5*3600+30*60+7)
+
+type valNsIn struct {
+	Inception  uint32 `json:"inception"`
+	Expiration uint32 `json:"expiration"`
+	Sec        int64  `json:"t_seconds"`
+	Ns         int64  `json:"t_nanoseconds"`
+	Zone       string `json:"zone"`
+}
+
+func valCaseNs(i, e uint32, sec, ns int64, emit bool) {
+	abs := func(x int64) int64 {
+		if x < 0 {
+			return -x
+		}
+		return x
+	}
+	for _, d := range []int64{0, 1} {
+		if abs(int64(i)-sec-d) >= 1<<31 || abs(int64(e)-sec-d) >= 1<<31 {
+			return
+		}
+	}
+	for zi, tm := range []time.Time{time.Unix(sec, ns), time.Unix(sec, ns).UTC(), time.Unix(sec, ns).In(otherZone)} {
+		if tm.IsZero() {
+			continue
+		}
+		rr := &dns.RRSIG{Inception: i, Expiration: e}
+		got := rr.ValidityPeriod(tm)
+		st["validity_subsecond_checked"]++
+		in := valNsIn{i, e, sec, ns, tm.Location().String()}
+		switch {
+		case sec >= int64(i) && sec == int64(e):
+			st["validity_subsecond_in_expiration_second_"+Btoa(got)]++
+			continue
+		case sec < int64(i) || sec > int64(e):
+			if got {
+				Viol("C17/ValidityPeriod/sub-second", fmt.Sprintf("ValidityPeriod=true for t = %d s + %d ns, which lies %s", sec, ns,
+					map[bool]string{true: "before the inception", false: "after the expiration second"}[sec < int64(i)]), in)
+			}
+		default:
+			if !got {
+				Viol("C17/ValidityPeriod/sub-second", fmt.Sprintf("ValidityPeriod=false for t = %d s + %d ns with inception <= t < expiration", sec, ns), in)
+			}
+		}
+		if emit && zi == 0 { // the model's verdict for the second the instant lies in
+			Emit("validity", []string{fmt.Sprint(i), fmt.Sprint(e), fmt.Sprint(sec)}, Btoa(got))
+		}
+	}
 }
 
 func runValidity(r *Rng, n int) {
@@ -1550,6 +1615,7 @@ func runC17(r *Rng, tier string, n int) {
 	runFlags(r, tier)      // keys.go: every DNSKEY flags value
 	runFixedKeys(r, tier)  // keys.go: every key size, fixed key pairs
 	runKeyLines(r, tier)   // keys.go: key text with lines of any length
+	runKeyFieldLens(r, tier) // keys.go: private-key fields whose decoded length is wrong for the algorithm
 	runConcurrent(r, tier) // conc.go: the same calls from many goroutines at once
 	Stat(st)
 }
